@@ -32,6 +32,7 @@ StaticOK(x) == x.k # "nilif" /\ (Unsupported(x) => d < ErrDepth)
 Slice(et, n, kids) == V(<<"slice">> \o et, "slice", n, "", <<>>, kids)
 Map(kk, et, n, keys, kids) == V(<<"map_" \o kk>> \o et, "map", n, "", keys, kids)
 
+CfFieldTypes == {<<"int">>, <<"ptr", "int">>, <<"slice", "int">>}     \* field types T for which a conflicting type "stc T" is declared
 Wraps(x) ==
   (IF StaticOK(x) THEN
       {Slice(x.t, FALSE, <<x>>), Slice(x.t, TRUE, <<>>), Slice(x.t, FALSE, <<>>),
@@ -45,12 +46,23 @@ Wraps(x) ==
    ELSE {})
   \cup (* struct field of the value's own type: any type may be a field type *)
      (IF x.k # "nilif" /\ ("unreg" \in RangeS(x.t) => d < ErrDepth) THEN {V(<<"st">> \o x.t, "st", FALSE, "", <<>>, <<x, ZLeaf>>)} ELSE {})
+  \cup (* a value of the type whose conflicting registration was refused (declared for these field types), holding x *)
+     (IF x.k # "nilif" /\ x.t \in CfFieldTypes THEN {V(<<"stc">> \o x.t, "st", FALSE, "", <<>>, <<x>>)} ELSE {})
+  \cup {V(<<"stc", "any">>, "st", FALSE, "", <<>>, <<x>>)}
   \cup (* interface positions *)
      {Slice(<<"any">>, FALSE, <<x, NILIF>>),
       V(<<"st", "any">>, "st", FALSE, "", <<>>, <<x, ZLeaf>>),
       Map("string", <<"any">>, FALSE, <<KeyFor("string"), Key2>>, <<x, NILIF>>)}
   \cup (IF "any" \in KeyKinds /\ x.k # "nilif" THEN {Map("any", <<"any">>, FALSE, <<K("int", "1")>>, <<x>>)} ELSE {})
 
+(* the registration protocol on the transcription: whatever is attempted (2 types x 2 names, up to 3 attempts), the       *)
+(* registry stays a bijection and a refused attempt changes nothing                                                       *)
+Attempts == {<<T, k>> : T \in {"A", "B"}, k \in {"n1", "n2"}}
+ASSUME \A a1, a2, a3 \in Attempts :
+         LET r1 == Register(EmptyReg, a1[1], a1[2]) r2 == Register(r1.reg, a2[1], a2[2]) r3 == Register(r2.reg, a3[1], a3[2])
+         IN /\ RegistryOK(r1.reg) /\ RegistryOK(r2.reg) /\ RegistryOK(r3.reg)
+            /\ (r2.refused => r2.reg = r1.reg) /\ (r3.refused => r3.reg = r2.reg)
+            /\ (a2[2] = a1[2] /\ a2[1] # a1[1] => r2.refused /\ a2[1] \notin DOMAIN r2.reg.rm)     \* same name, other type: refused, still unregistered
 Init == d = 0 /\ v \in {Leaf(b) : b \in Bases} \cup {NILIF}
 WrapPtr == /\ v.k # "nilif" /\ PtrDepth(v.t) < MaxPtr
            /\ v' \in {V(<<"ptr">> \o v.t, "ptr", FALSE, "", <<>>, <<v>>), NilPtrOf(<<"ptr">> \o v.t)}
